@@ -1271,7 +1271,7 @@ STR_VIEWS = re.compile(r'::(deref|as_str|as_ref|borrow|trim|trim_start|trim_end|
 
 
 def _is_str_call(c):
-    return bool(re.match(r'^(core::str::<impl str>::|<&?(mut )?str as |std::string::String::|<&?(mut )?std::string::String as )', c.name))
+    return bool(re.match(r'^((core|std|alloc)::str::<impl str>::|<&?(mut )?str as |(std|alloc)::string::String::|<&?(mut )?(std|alloc)::string::String as )', c.name))
 
 
 def _ws_predicate(ctx, b, a, depth=0):
@@ -1292,6 +1292,70 @@ def _ws_body(ctx, cb):
     return not any(o['k'] == 'const' and o['v'].strip().startswith("'") for bi, st in cb.stmts() for o in st['rv'].get('ops', []))
 
 
+# calls that give back / leave behind a text different from the one they got (beyond cutting: case folding, replacing, appending)
+STR_REWRITERS = STR_CUTTERS + ('to_uppercase', 'to_lowercase', 'to_ascii_uppercase', 'to_ascii_lowercase', 'make_ascii_uppercase', 'make_ascii_lowercase',
+                               'insert', 'insert_str', 'push', 'push_str', 'split_off', 'repeat', 'rev', 'escape_debug', 'escape_default')
+NUMERIC_TY = re.compile(r'^(f32|f64|[iu](8|16|32|64|128|size)|std::num::NonZero<.*>|std::num::NonZero\w+)$')
+
+
+def _is_rewriter(c):
+    if not _is_str_call(c) or c.item not in STR_REWRITERS: return False
+    if c.item in ('get', 'get_unchecked', 'index'): return bool(re.search(r'Range', c.name))
+    return True
+
+
+def _only_parsed_as_number(b, c, limit=60):
+    """does the text a call produces end up in nothing but `parse::<number>()`?  (a rewrite such as the Fortran exponent `1.0D+20 -> 1.0E+20`
+    confined to a token that is then read as a number cannot touch a name)"""
+    seen = set(); work = [c.dst['l']]; sinks = 0
+    while work:
+        l = work.pop()
+        if l in seen: continue
+        seen.add(l)
+        if len(seen) > limit or l == 0: return False
+        for kind, bi, x in b.uses.get(l, ()):
+            if kind == 'stmt':
+                if 'dst' not in x: continue
+                if x['rv']['k'] in ('use', 'ref') and not x['dst']['p']: work.append(x['dst']['l'])
+                else: return False
+            elif kind == 'call':
+                if x.item == 'parse' and _is_str_call(x):
+                    ty = (x.gargs[-1] if x.gargs else '').strip()
+                    if NUMERIC_TY.match(ty): sinks += 1; continue
+                    return False
+                if _is_str_call(x) and STR_VIEWS.search(T.strip_generics_tail(x.name)) or x.item in ('deref', 'as_str', 'as_ref', 'borrow'): work.append(x.dst['l']); continue
+                return False
+            else: return False
+    return sinks > 0
+
+
+def name_path_bodies(ctx, fl):
+    """the bodies a token passes on its way into a NAME: from the reader of QplibFile.var_names / constr_names down through everything it calls
+    with the text (closures, functions handed over as values), leaving out calls whose result is a number (the entry count of the section)"""
+    aggs = find_aggregates(fl, QF)
+    starts = []
+    for bi, st in aggs:
+        for f in ('var_names', 'constr_names'):
+            for c in origin_calls(fl, agg_field_operand(st, f)):
+                cb = ctx.F.bodies.get(c.path) or ctx.F.bodies.get(c.name)
+                if cb is not None and cb.name.startswith('qplib::'): starts.append(cb)
+    out = {}; work = list(starts)
+    while work:
+        b = work.pop()
+        if b.name in out: continue
+        out[b.name] = b
+        for bi, st, cl in b.closures_created():
+            cb = ctx.F.bodies.get(cl)
+            if cb is not None: work.append(cb)
+        for c in b.calls:
+            ty = b.locals[c.dst['l']] if not c.dst['p'] else ''
+            m = re.match(r'^std::result::Result<(.*), [^,]*>$', ty.strip())
+            if NUMERIC_TY.match((m.group(1) if m else ty).strip()): continue
+            for cb in crate_callees(ctx, b, c):
+                if cb.name.startswith('qplib::'): work.append(cb)
+    return list(out.values())
+
+
 def token_rules(ctx):
     R = 'C19.tokens'
     fl = from_lines(ctx)
@@ -1308,9 +1372,17 @@ def token_rules(ctx):
                 if pat is not None and _ws_predicate(ctx, b, pat): splitters.append((b, c))
                 else: bad_sep.append('%s: %s' % (b.site(c.bb), c.item))
             elif c.item in STR_CUTTERS and (c.item not in ('get', 'get_unchecked', 'index', 'pop', 'remove', 'drain', 'retain', 'truncate') or (re.search(r'Range', c.name) if c.item in ('get', 'get_unchecked', 'index') else True)):
-                cutters.append('%s: %s' % (b.site(c.bb), c.item))
+                if not _only_parsed_as_number(b, c): cutters.append('%s: %s' % (b.site(c.bb), c.item))
     ctx.check(not bad_sep, R + '/separator', 'T-TABLE', 'qplib::parser::FileCursor', 'a line is split on something other than whitespace: %s' % bad_sep[:4])
     ctx.check(not cutters, R + '/no-cutter', 'T-TABLE', 'qplib::parser::FileCursor', 'characters are cut out of a line / token: %s' % cutters[:4])
+    # names are stored verbatim: on the way of a token into var_names / constr_names nothing rewrites it (a rewrite of a token that is only read
+    # as a number afterwards is not on that way)
+    if fl is not None:
+        nb = name_path_bodies(ctx, fl)
+        if nb and fl.name not in {b.name for b in nb}: nb = nb + [fl]        # the instance name and anything from_lines does to the tables itself
+        rew = ['%s: %s in %s' % (b.site(c.bb), c.item, b.name.split('::')[-1]) for b in nb for c in b.calls if _is_rewriter(c) and not _only_parsed_as_number(b, c)]
+        ctx.check(bool(nb) and not rew, R + '/names-verbatim', 'T-CARRY', 'qplib::parser::FileCursor',
+                  'a token is rewritten on its way into a variable / constraint name: %s' % (rew[:4] if nb else 'no reader of the name sections found'), names_path=sorted(b.name.split('qplib::parser::')[-1] for b in nb)[:12])
     ctx.check(bool(splitters), R + '/splitters', 'T-TABLE', 'qplib::parser::FileCursor', 'no place where a line is split into whitespace-separated tokens was found')
     for b, c in splitters:
         # what is split: the line as `expect_next` delivered it, seen through views only
@@ -2213,4 +2285,4 @@ def enum_rows(ctx, b, ty, pick):
 def check(ctx):
     codes_rules(ctx); section_rules(ctx); token_rules(ctx); errors_rules(ctx); convert_rules(ctx)
     ctx.floor('C19.codes', 15); ctx.floor('C19.sections', 46); ctx.floor('C19.convert.cover', 19); ctx.floor('C19.infinity', 3)
-    ctx.floor('C19.convert.half', 4); ctx.floor('C19.convert.sign', 15); ctx.floor('C19.convert.b0', 8); ctx.floor('C19.convert.wrap', 2); ctx.floor('C19.convert.vars', 4); ctx.floor('C19.vartypes', 3); ctx.floor('C19.convert.terms', 6); ctx.floor('C19.tokens', 6)
+    ctx.floor('C19.convert.half', 4); ctx.floor('C19.convert.sign', 15); ctx.floor('C19.convert.b0', 8); ctx.floor('C19.convert.wrap', 2); ctx.floor('C19.convert.vars', 4); ctx.floor('C19.vartypes', 3); ctx.floor('C19.convert.terms', 6); ctx.floor('C19.tokens', 7)
